@@ -31,7 +31,8 @@ def base_env(disk, extra=None):
 
 
 class Result:
-    def __init__(self, argv, rc, out, err, dt, timed_out=False, hang_proof=None):
+    def __init__(self, argv, rc, out, err, dt, timed_out=False, hang_proof=None, pid=None):
+        self.pid = pid
         self.argv = argv
         self.rc = rc
         self.out = out
@@ -141,7 +142,7 @@ def run_cmd(disk, argv, cwd="", env_extra=None, timeout=60.0, pass_fds=(), stdin
         # stragglers (e.g. orphaned scripts after an abort) must not leak into the next step
         if session_pids(p.pid):
             time.sleep(0.05)
-        return Result(argv, p.returncode, out, err, time.time() - t0)
+        return Result(argv, p.returncode, out, err, time.time() - t0, pid=p.pid)
     except subprocess.TimeoutExpired:
         proof = no_progress_proof(p.pid)
         kill_session(p.pid)
@@ -149,7 +150,7 @@ def run_cmd(disk, argv, cwd="", env_extra=None, timeout=60.0, pass_fds=(), stdin
             out, err = p.communicate(timeout=5)
         except subprocess.TimeoutExpired:
             out, err = b"", b""
-        return Result(argv, p.returncode, out, err, time.time() - t0, timed_out=True, hang_proof=proof)
+        return Result(argv, p.returncode, out, err, time.time() - t0, timed_out=True, hang_proof=proof, pid=p.pid)
 
 
 def stragglers(res_pid):
